@@ -15,8 +15,8 @@ runs per process, ASan + UBSan + LeakSanitizer on every harness of every propert
 * `product_cells_all_written`, `sum_cells_all_written` — the SpGEMM / sum kernels allocate `ptr[n]` cells with
   `set_nonzeros(n)` (uninitialised) and fill them row by row: the allocated row segments are exactly the rows
   written (C08 `*_widths_consistent`), so no cell is left unwritten and none is written out of its segment.
-* `diagonal_defined_iff` — `backend::diagonal` allocates an uninitialised vector; entry `i` is defined iff row `i`
-  stores a diagonal entry (the relaxation models turn a missing diagonal into the outcome `undefinedInput`).
+* `diagonal_always_defined` — `backend::diagonal` allocates an uninitialised vector and (fix baae926) writes every entry;
+  a missing diagonal reads as zero / identity (the relaxation models still treat a missing diagonal as outside their domain).
 * degenerate inputs: `single_level_when_small` (a problem below `coarse_enough` is one level, never an empty
   hierarchy); the general last-level decision table is `C03.build_last_level`.
 -/
@@ -58,15 +58,14 @@ theorem sum_cells_all_written (α : K) (A : CRS K) (β : K) (B : CRS K) (sort : 
     sumWidths A B = (sum α A β B sort).rows.toList.map List.length :=
   (C08b.sum_widths_consistent α A β B sort hA hB hc).1
 
-/-- `backend::diagonal` allocates an uninitialised vector (`numa_vector(n, false)`): entry `i` is written iff row
-`i` stores a diagonal entry — exactly the structural requirement the relaxation constructors state -/
-theorem diagonal_defined_iff {K : Type} [Zero K] [One K] [Inv K] [DecidableEq K] (A : CRS K) (invert : Bool)
+/-- `backend::diagonal` allocates an uninitialised vector (`numa_vector(n, false)`) and — since fix baae926 — writes
+EVERY entry: a row without a stored diagonal entry gets `0` (the identity for the inverted diagonal) instead of heap
+garbage.  (As found, entry `i` was written iff row `i` stored a diagonal entry.) -/
+theorem diagonal_always_defined {K : Type} [Zero K] [One K] [Inv K] [DecidableEq K] (A : CRS K) (invert : Bool)
     (i : Nat) (hi : i < A.nrows) :
-    (diagonal A invert).getD i none ≠ none ↔ i ∈ (A.row i).map (·.1) := by
-  have := (C08b.diagonal_first_entry A invert i hi).1
-  constructor
-  · intro h; by_contra hc; exact h (this.mpr hc)
-  · intro h hc; exact (this.mp hc) h
+    (diagonal A invert).getD i none ≠ none ∧
+    (i ∉ (A.row i).map (·.1) → (diagonal A invert).getD i none = some (if invert then 1 else 0)) :=
+  ⟨K2.diagonal_ne_none A invert i hi, (C08b.diagonal_first_entry A invert i hi).1⟩
 
 end kernels
 
